@@ -452,6 +452,157 @@ theorem scan_slice_slice {α} (fs : List α) (a b c d : Nat) :
     (((fs.take b).drop a).take d).drop c = (fs.take (min b (a + d))).drop (a + c) :=
   crop_crop fs a b c d
 
+/-! ## Scans: what a derived view reports about its pixels -/
+
+/-- the crop of `cropFrame` on any rows × columns table -/
+def cropRows {α} (f : List (List α)) (y0 y1 x0 x1 : Option Int) : List (List α) :=
+  (pySliceOpt f y0 y1).map fun row => pySliceOpt row x0 x1
+
+theorem pySliceOpt_map' {α β} (g : α → β) (l : List α) (a b : Option Int) :
+    pySliceOpt (l.map g) a b = (pySliceOpt l a b).map g := by
+  unfold pySliceOpt pySlice
+  simp only [List.length_map, List.map_drop, List.map_take]
+
+/-- Per-pixel timestamps of a frame-sliced and cropped scan are the same selection applied to the source's
+    per-pixel timestamps (no pixel gets the timestamp of another one). -/
+theorem scan_slice_timestamps (v w : SView) (a b y0 y1 x0 x1 : Option Int)
+    (h : v.slice a b y0 y1 x0 x1 = .view w) :
+    w.timestamps = (pySliceOpt v.timestamps a b).map fun f => cropRows f y0 y1 x0 x1 := by
+  rw [scan_slice_refines] at h
+  split at h
+  · cases h
+  · split at h
+    · cases h
+    · injection h with h
+      subst h
+      unfold SView.timestamps cropRows cropFrame
+      simp only [pySliceOpt_map', List.map_map]
+      apply List.map_congr_left
+      intro f _
+      simp only [Function.comp_apply, pySliceOpt_map', List.map_map]
+      apply List.map_congr_left
+      intro row _
+      simp only [Function.comp_apply, pySliceOpt_map']
+
+/-- an element of a Python slice sits at a fixed offset in the source -/
+theorem getElem?_pySliceOpt {α} (l : List α) (a b : Option Int) (n : Nat) (x : α)
+    (h : (pySliceOpt l a b)[n]? = some x) : l[pyNorm l.length (a.getD 0) + n]? = some x := by
+  unfold pySliceOpt pySlice at h
+  rw [List.getElem?_drop, List.getElem?_take] at h
+  split at h
+  · exact h
+  · cases h
+
+theorem mem_pySliceOpt {α} {l : List α} {a b : Option Int} {x : α} (h : x ∈ pySliceOpt l a b) : x ∈ l := by
+  unfold pySliceOpt pySlice at h
+  exact List.mem_of_mem_take (List.mem_of_mem_drop h)
+
+/-- pixel `[r][c]` of a frame -/
+def pixAt (f : Frame) (r c : Nat) : Option Pix := (f[r]?).bind (·[c]?)
+
+/-- Every two pixels of the view that are neighbours along the FAST axis are `pt` apart in time. -/
+def FastStep (v : SView) (pt : Int) : Prop :=
+  ∀ f ∈ v.frames, ∀ r c p q, pixAt f r c = some p →
+    pixAt f (if v.fastRows then r + 1 else r) (if v.fastRows then c else c + 1) = some q → q.tmean - p.tmean = pt
+
+theorem pixAt_cropFrame (f : Frame) (n : Nat) (hrect : Rect f n) (y0 y1 x0 x1 : Option Int) (r c : Nat) (p : Pix)
+    (h : pixAt (cropFrame f y0 y1 x0 x1) r c = some p) :
+    pixAt f (pyNorm f.length (y0.getD 0) + r) (pyNorm n (x0.getD 0) + c) = some p := by
+  unfold pixAt cropFrame at h
+  rw [List.getElem?_map] at h
+  cases hrow : (pySliceOpt f y0 y1)[r]? with
+  | none => rw [hrow] at h; cases h
+  | some row =>
+    rw [hrow] at h
+    simp only [Option.map_some, Option.bind_some] at h
+    have h1 := getElem?_pySliceOpt f y0 y1 r row hrow
+    have hlen : row.length = n := hrect row (List.mem_of_getElem? h1)
+    have h2 := getElem?_pySliceOpt row x0 x1 c p h
+    unfold pixAt
+    rw [h1]
+    simp only [Option.bind_some]
+    rw [← hlen]; exact h2
+
+/-- Slicing frames and cropping pixels keeps the spacing of fast-axis neighbours: the pixel time of the source
+    is the pixel time of every derived view — **for either orientation of the fast axis**. -/
+theorem scan_slice_keeps_fast_step (v w : SView) (pt : Int) (n : Nat) (hrect : ∀ f ∈ v.frames, Rect f n)
+    (hstep : FastStep v pt) (a b y0 y1 x0 x1 : Option Int) (h : v.slice a b y0 y1 x0 x1 = .view w) :
+    FastStep w pt := by
+  rw [scan_slice_refines] at h
+  split at h
+  · cases h
+  · split at h
+    · cases h
+    · injection h with h
+      subst h
+      intro g hg r c p q hp hq
+      simp only [List.mem_map] at hg
+      obtain ⟨f, hf, rfl⟩ := hg
+      have hfv : f ∈ v.frames := mem_pySliceOpt hf
+      have hp' := pixAt_cropFrame f n (hrect f hfv) y0 y1 x0 x1 r c p hp
+      have hq' := pixAt_cropFrame f n (hrect f hfv) y0 y1 x0 x1 _ _ q hq
+      refine hstep f hfv _ _ p q hp' ?_
+      simp only at hq' ⊢
+      cases hfr : v.fastRows <;> simp only [hfr, Bool.false_eq_true, ↓reduceIte] at hq' ⊢
+      · rw [← hq']; congr 1
+      · rw [← hq']; congr 1
+
+/-- The pixel time a derived view reports (difference between pixel `[0,0]` and its fast-axis neighbour in the
+    first frame) is the fast-axis spacing, whenever it is defined at all. -/
+theorem scan_pixel_time_of_fast_step (w : SView) (pt t : Int) (hstep : FastStep w pt) (h : w.pixelTime = some t) :
+    t = pt := by
+  unfold SView.pixelTime at h
+  cases hf : w.frames.head? with
+  | none => rw [hf] at h; cases h
+  | some f =>
+    rw [hf] at h
+    simp only [Option.bind_eq_bind, Option.bind_some] at h
+    have hmem : f ∈ w.frames := List.mem_of_head? hf
+    cases ha : (f[0]?).bind (·[0]?) with
+    | none => rw [ha] at h; cases h
+    | some p =>
+      rw [ha] at h
+      simp only [Option.bind_some] at h
+      cases hfr : w.fastRows
+      · simp only [hfr, Bool.false_eq_true, ↓reduceIte] at h
+        cases hb : (f[0]?).bind (·[1]?) with
+        | none => rw [hb] at h; cases h
+        | some q =>
+          rw [hb] at h
+          simp only [Option.bind_some, Option.some.injEq] at h
+          rw [← h]
+          refine hstep f hmem 0 0 p q ha ?_
+          simp only [hfr, Bool.false_eq_true, ↓reduceIte]
+          exact hb
+      · simp only [hfr, ↓reduceIte] at h
+        cases hb : (f[1]?).bind (·[0]?) with
+        | none => rw [hb] at h; cases h
+        | some q =>
+          rw [hb] at h
+          simp only [Option.bind_some, Option.some.injEq] at h
+          rw [← h]
+          refine hstep f hmem 0 0 p q ha ?_
+          simp only [hfr, ↓reduceIte]
+          exact hb
+
+/-- Pixel counts follow the image: a view with `R` rows and `C` columns reports `C` pixels per line and `R` lines
+    per frame when the fast axis runs along the columns, and the other way round when it runs down the rows. -/
+theorem scan_pixel_counts (v : SView) (f : Frame) (fs : List Frame) (h : v.frames = f :: fs) :
+    (v.pixelsPerLine, v.linesPerFrame) =
+      if v.fastRows then (f.length, numColsF f) else (numColsF f, f.length) := by
+  unfold SView.pixelsPerLine SView.linesPerFrame
+  rw [h]
+  cases v.fastRows <;> simp
+
+/-- non-vacuity: a 2×3 frame scanned along the columns with 20 ns between neighbours; cropping columns `1:` gives a
+    view that reports 20 ns -/
+def exScan : SView :=
+  ⟨[[[⟨1, 0, 10⟩, ⟨1, 20, 30⟩, ⟨1, 40, 50⟩], [⟨1, 100, 110⟩, ⟨1, 120, 130⟩, ⟨1, 140, 150⟩]]], 10, false⟩
+
+example : (match exScan.slice none none none none (some 1) none with
+     | .view w => decide (w.pixelTime = some 20 ∧ w.pixelsPerLine = 2 ∧ w.linesPerFrame = 2)
+     | _ => false) = true := by decide
+
 /-- Time → frame index: the number of frames that start (resp. stop) before the timestamp. -/
 theorem time_to_frame_start (v : SView) (t : Int) (hs : (v.ranges.map (·.1)).Pairwise (· ≤ ·)) (c : Nat)
     (hc : c < (v.ranges.map (·.1)).length) :
